@@ -3,7 +3,7 @@ import numpy as np
 
 from .. import casecheck
 from ..evaluator import ev_expr, rat
-from ..pool import contract, metadata_problem
+from ..pool import contract, metadata_problem, caller_array
 
 ASSUME = [
     'integer data matrices; integer-polynomial / indicator bases are evaluated exactly by TLC, mixtures with sin/cos/Gauss by the generic evaluator from the leaf expressions the specification emits',
@@ -92,12 +92,12 @@ def replay(case):
     import scikit_tt.data_driven.transform as tf
     cfg, exp = case['cfg'], case['expect']
     lay = cfg['layout']
-    x = np.array(exp['x'], dtype=float)
+    x = caller_array(np.array(exp['x'], dtype=float), len(exp['x'][0]))      # read-only, Fortran-ordered for odd m
     vals = leaf_values(exp['leaves'])
     out = []
     try:
         if lay == 'gram':
-            x2 = np.array(exp['x2'], dtype=float)
+            x2 = caller_array(np.array(exp['x2'], dtype=float), 1)
             vals2 = leaf_values(exp['leaves2'])
             want = np.ones((x.shape[1], x2.shape[1]))
             for a, b in zip(vals, vals2):
